@@ -128,11 +128,6 @@ Proof. unfold absent_b. destruct (rlook u running); split; congruence. Qed.
 Lemma impl_b a b : negb a || b = true <-> (a = true -> b = true).
 Proof. destruct a, b; cbn; intuition congruence. Qed.
 
-Lemma still_locked_spec now u : still_locked now u = true <-> nlook u now = Some Locked.
-Proof.
-  unfold still_locked. destruct (nlook u now) as [[]|]; split; intros H; try discriminate; try reflexivity; congruence.
-Qed.
-
 Theorem sync_spec_reflects c : C14_sync_run.spec_b c = true <-> SyncSpec c.
 Proof.
   unfold C14_sync_run.spec_b. rewrite !andb_true_iff, !forallb_forall. split.
@@ -147,11 +142,11 @@ Proof.
       apply andb_true_iff. split; [apply cstate_eqb_spec; exact Hs|]. apply orb_true_iff.
       destruct Hd as [Hd|[Hd1 Hd2]]; [left; apply dead_b_spec; exact Hd|right].
       apply andb_true_iff. split; [apply absent_b_spec; exact Hd1|rewrite Hd2; reflexivity].
-    + intros e He Hs Hn Hd Hnow. specialize (A e He). apply orb_true_iff in A. destruct A as [A|A].
+    + intros e He Hs Hn Hd Hnow Hreason. specialize (A e He). apply orb_true_iff in A. destruct A as [A|A].
       { exfalso. apply Hn. apply memN_In. exact A. }
       rewrite !andb_true_iff in A. destruct A as [_ A3]. rewrite impl_b in A3. apply memN_In. apply A3.
-      rewrite !andb_true_iff. split; [split; [apply cstate_eqb_spec; exact Hs|apply dead_b_spec; exact Hd]|apply still_locked_spec; exact Hnow].
-    + intros u Hu. apply still_locked_spec. apply A'. exact Hu.
+      rewrite !andb_true_iff. split; [split; [split; [apply cstate_eqb_spec; exact Hs|apply dead_b_spec; exact Hd]|exact Hnow]|exact Hreason].
+    + intros u Hu. apply andb_true_iff. apply A'. exact Hu.
     + intros u t Hr Hn Hl. assert (Hin : In (u, t) (y_running c)).
       { clear -Hr. induction (y_running c) as [|[k v] r IH]; cbn [rlook] in Hr; [discriminate|].
         destruct (N.eqb k u) eqn:E; [apply N.eqb_eq in E; injection Hr as <-; subst; left; reflexivity|right; auto]. }
@@ -167,9 +162,9 @@ Proof.
       * apply andb_true_iff in G. destruct G as [G1 G2]. apply S2; auto; [apply cstate_eqb_spec; exact G1|].
         apply orb_true_iff in G2. destruct G2 as [G2|G2]; [left; apply dead_b_spec; exact G2|right].
         apply andb_true_iff in G2. destruct G2 as [G3 G4]. split; [apply absent_b_spec; exact G3|]. destruct (y_unknown c); [discriminate|reflexivity].
-      * rewrite !andb_true_iff in G. destruct G as [[G1 G2] G3].
-        apply S3; auto; [apply cstate_eqb_spec; exact G1|apply dead_b_spec; exact G2|apply still_locked_spec; exact G3].
-    + intros u Hu. apply still_locked_spec. apply S3'. exact Hu.
+      * rewrite !andb_true_iff in G. destruct G as [[[G1 G2] G3] G4].
+        apply S3; auto; [apply cstate_eqb_spec; exact G1|apply dead_b_spec; exact G2].
+    + intros u Hu. apply andb_true_iff. apply S3'. exact Hu.
     + intros [u t] Hin. cbn [fst].
       destruct (memN u (map e_uuid (y_ents c))) eqn:E1; [reflexivity|].
       destruct (memN u (y_latch c)) eqn:E2; [reflexivity|]. cbn [orb].
@@ -183,13 +178,14 @@ Qed.
 (* the model's own actions, read as an observation, satisfy the specification: for all snapshots *)
 Definition pickN (f : act -> option N) (l : list act) : list N :=
   flat_map (fun a => match f a with Some u => [u] | None => [] end) l.
-Definition model_obs (ents : list ent) (running : rmap) (unknown : bool) (qupd : Z) (latch : list N) (now : list (N * cstate)) : case :=
+Definition model_obs (ents : list ent) (running : rmap) (unknown : bool) (qupd : Z) (latch : list N)
+           (now : list (N * (cstate * Z))) (run_now : rmap) : case :=
   let acts := sync ents running unknown qupd latch in
-  mksy ents running unknown qupd latch now
+  mksy ents running unknown qupd latch now run_now
        (pickN (fun a => match a with ACancel u => Some u | _ => None end) acts)
        (pickN (fun a => match a with AKill u => Some u | _ => None end) acts)
        (pickN (fun a => match a with AKill u => Some u | _ => None end) acts)
-       (sync_unlocks acts now)
+       (sync_unlocks acts now run_now)
        (pickN (fun a => match a with AForget u => Some u | _ => None end) acts).
 
 Lemma in_pickN f l u a : In a l -> f a = Some u -> In u (pickN f l).
@@ -197,30 +193,39 @@ Proof.
   intros Ha Hf. unfold pickN. apply in_flat_map. exists a. split; [exact Ha|]. rewrite Hf. left; reflexivity.
 Qed.
 
-Theorem sync_meets_spec ents running unknown qupd latch now : SyncSpec (model_obs ents running unknown qupd latch now).
+Theorem sync_meets_spec ents running unknown qupd latch now run_now : SyncSpec (model_obs ents running unknown qupd latch now run_now).
 Proof.
-  unfold model_obs. constructor; cbn [y_ents y_running y_unknown y_qupd y_latch y_now o_cancel o_kill o_unlock].
+  unfold model_obs. constructor; cbn [y_ents y_running y_unknown y_qupd y_latch y_now y_run_now o_cancel o_kill o_unlock].
   - intros e He Hl Hf Hn. apply (in_pickN _ _ _ (AKill (e_uuid e))); [|reflexivity].
     apply finished_is_killed; auto. apply memN_false. exact Hn.
   - intros e He Hs Hn Hd. apply (in_pickN _ _ _ (ACancel (e_uuid e))); [|reflexivity].
     apply dead_running_cancelled; auto. apply memN_false. exact Hn.
-  - intros e He Hs Hn Hd Hnow. unfold sync_unlocks. apply filter_In. split; [|apply still_locked_spec; exact Hnow].
-    apply in_flat_map. exists (ARequeue (e_uuid e)). split; [|left; reflexivity].
+  - intros e He Hs Hn Hd Hnow Hreason. unfold sync_unlocks. apply filter_In. split; [|rewrite Hnow, Hreason; reflexivity].
+    unfold requeues. apply in_flat_map. exists (ARequeue (e_uuid e)). split; [|left; reflexivity].
     apply dead_locked_requeued; auto. apply memN_false. exact Hn.
-  - intros u Hu. unfold sync_unlocks in Hu. apply filter_In in Hu. apply still_locked_spec. tauto.
+  - intros u Hu. unfold sync_unlocks in Hu. apply filter_In in Hu. destruct Hu as [_ Hu]. apply andb_true_iff in Hu. exact Hu.
   - intros u t Hr Hn Hl. apply (in_pickN _ _ _ (AKill u)); [|reflexivity].
     eapply orphan_killed; eauto. apply memN_false. exact Hl.
 Qed.
 
-Theorem requeue_rechecks acts now u : In u (sync_unlocks acts now) -> nlook u now = Some Locked.
-Proof. unfold sync_unlocks. intros H. apply filter_In in H. apply still_locked_spec. tauto. Qed.
-
-(* residual window F21b: the re-check looks at the state only, not at the reason.  A requeue decided on an
-   older snapshot ("Locked, crunch-run exited") still unlocks a container that has meanwhile been requeued,
-   forgotten by the pool and locked again (pool.Running() no longer reports it) *)
-Theorem requeue_reason_not_rechecked_refuted :
-  ~ (forall acts now (running_now : rmap) u,
-       In u (sync_unlocks acts now) -> exists t, rlook u running_now = Some t /\ t <> 0).
+(* F21 fixed: a requeue goroutine unlocks only a container that the queue shows Locked when it runs AND whose
+   reason still holds at that moment: pool.Running() reports an exited crunch-run, or reports nothing and the
+   priority is 0 *)
+Theorem requeue_rechecks acts now run_now u :
+  In u (sync_unlocks acts now run_now) ->
+  (exists p, nlook u now = Some (Locked, p)) /\
+  ((exists t, rlook u run_now = Some t /\ t <> 0) \/ (rlook u run_now = None /\ exists st p, nlook u now = Some (st, p) /\ p <= 0)).
 Proof.
-  intros H. destruct (H [ARequeue 7] [(7%N, Locked)] [] 7%N) as (t & Ht & _); [left; reflexivity|discriminate].
+  unfold sync_unlocks. intros H. apply filter_In in H. destruct H as [_ H]. apply andb_true_iff in H. destruct H as [H1 H2].
+  unfold still_locked in H1. unfold reason_holds in H2. split.
+  - destruct (nlook u now) as [[[] p]|]; try discriminate. eauto.
+  - destruct (rlook u run_now) as [t|].
+    + left. exists t. split; [reflexivity|]. apply negb_true_iff in H2. apply Z.eqb_neq. exact H2.
+    + right. split; [reflexivity|]. destruct (nlook u now) as [[st p]|]; [|discriminate]. exists st, p. split; [reflexivity|apply Z.leb_le; exact H2].
 Qed.
+(* in particular a container that was re-locked after its old process had been forgotten is left alone *)
+Example requeue_relocked_left_alone : sync_unlocks [ARequeue 7] [(7%N, (Locked, 5))] [] = [].
+Proof. reflexivity. Qed.
+(* regression witness about the OLD model (before dbd540e / c30ecc5 the decision was executed as is) *)
+Example requeue_old_model_unlocked_relocked : sync_unlocks_old [ARequeue 7] = [7%N].
+Proof. reflexivity. Qed.
